@@ -241,7 +241,7 @@ func init() {
 }
 
 var c11Units = []string{
-	`\"`, `\\`, `\/`, `\b`, `\f`, `\n`, `\r`, `\t`, "\\" + "u0041", "\\" + "u00e9", "\\" + "u0000", "\\" + "u001f", "\\" + "u2028", "\\" + "ud83d" + "\\" + "ude00", "\\" + "uD83D" + "\\" + "uDE00", "\\" + "uffff",
+	`\"`, `\\`, `\/`, `\b`, `\f`, `\n`, `\r`, `\t`, "\\" + "u0041", "\\" + "u00e9", "\\" + "u0000", "\\" + "u001f", "\\" + "u2028", "\\" + "ud83d" + "\\" + "ude00", "\\" + "uD83D" + "\\" + "uDE00", "\\" + "uffff", "\\" + "ufffd", "\\" + "uFFFD", "\\" + "ufffe", "\\" + "ud7ff", "\\" + "ue000", "\\" + "ufeff",
 	"a", "é", "€", "😀", " ", "$", "`", ".", "[", "{", "(", "/", "'", "?", ":", "|", "&", "u", "\\" + "u0031", "0",
 }
 
